@@ -164,4 +164,35 @@ theorem run_refines (m : Metric) (prog : List Op) (w : World) (h : w.Inv) :
     · rw [k2, h2]
     · rw [k3, h3, h2]
 
+/-! ## frame conditions of the value semantics, transported to the heap -/
+
+theorem pmergeInto_frame (ps : List (FreqState Str)) (i l : Nat) (o : FreqState Str) (hl : l ≠ i) :
+    (pmergeInto ps i o)[l]? = ps[l]? := by
+  unfold pmergeInto
+  cases ps[i]? with
+  | none => rfl
+  | some s => exact List.getElem?_set_ne (Ne.symm hl)
+
+/-- a call only changes the accumulator it is invoked on (`make` only appends a new one) -/
+theorem pstep_frame (m : Metric) (ps : List (FreqState Str)) (op : Op) (l : Nat) (hl : l < ps.length)
+    (hrecv : ∀ i texts, op = .add i texts → l ≠ i) (hrecv' : ∀ i j, op = .merge i j → l ≠ i) :
+    (pstep m ps op).1[l]? = ps[l]? := by
+  cases op with
+  | make => simp [pstep, List.getElem?_append_left hl]
+  | add i texts => exact pmergeInto_frame _ _ _ _ (hrecv i texts rfl)
+  | merge i j =>
+    simp only [pstep]
+    cases ps[j]? with
+    | none => rfl
+    | some o => exact pmergeInto_frame _ _ _ _ (hrecv' i j rfl)
+  | result i =>
+    simp only [pstep]
+    cases ps[i]? <;> rfl
+
+theorem step_frame (m : Metric) (w : World) (h : w.Inv) (op : Op) (l : Nat) (hl : l < w.accs.length)
+    (hrecv : ∀ i texts, op = .add i texts → l ≠ i) (hrecv' : ∀ i j, op = .merge i j → l ≠ i) :
+    (step m w op).1.abs[l]? = w.abs[l]? := by
+  rw [(step_refines m w h op).2.1]
+  exact pstep_frame m w.abs op l (by simpa [World.abs] using hl) hrecv hrecv'
+
 end MlModel.Agg.Text
